@@ -1225,6 +1225,9 @@ int32_t jls_core_ts_seek(struct jls_core_s * self, uint16_t signal_id, uint8_t l
                 --idx;
                 break;
             } else if (r->entries[idx].timestamp == timestamp) {
+                if (lvl > 1) {
+                    --idx;  // the previous child chunk may end with entries of the same timestamp
+                }
                 break;
             }
         }
